@@ -201,7 +201,12 @@ func genMyPacket(t *rapid.T) MyPacketCase {
 	huge := false
 	for i := 0; i < n; i++ {
 		b := genBlob(t, fmt.Sprintf("p%d", i), false)
-		if thorough() && !huge && rapid.IntRange(0, 7).Draw(t, fmt.Sprintf("p%d.huge", i)) == 0 {
+		// payloads at the 16 MiB frame boundary: one case in eight (thorough), one in about sixty (quick)
+		odds := 59
+		if thorough() {
+			odds = 7
+		}
+		if !huge && rapid.IntRange(0, odds).Draw(t, fmt.Sprintf("p%d.huge", i)) == 0 {
 			b.N = rapid.SampledFrom([]int{1<<24 - 2, 1<<24 - 1, 1 << 24, 1<<24 + 1, 2*(1<<24-1) - 1, 2 * (1<<24 - 1), 2*(1<<24-1) + 1}).Draw(t, fmt.Sprintf("p%d.hugelen", i))
 		}
 		if b.N == 0 {
@@ -258,7 +263,7 @@ func CheckMyPacket(c MyPacketCase) hx.Vs {
 }
 
 func TestMySQLPacket(t *testing.T) {
-	R.Rule("TestMySQLPacket", "a stream of 1-4 logical packets (payload lengths short / at 250,251 / at 65535,65536 / thorough: at most one at 2^24-1, 2^24, 2^24+1 = multi-packet), framed by the reference codec with a generated first sequence id, read with mysql.ReadPacket; GetData() must be the payload and Dump() the exact bytes read. Non-trivial: every case")
+	R.Rule("TestMySQLPacket", "a stream of 1-4 logical packets (payload lengths short / at 250,251 / at 65535,65536 / at most one at 2^24-2, 2^24-1, 2^24, 2^24+1, 2*(2^24-1)+-1 = multi-packet; rare in quick), framed by the reference codec with a generated first sequence id, read with mysql.ReadPacket; GetData() must be the payload and Dump() the exact bytes read. Non-trivial: every case")
 	hx.Checks(500, 400)
 	rapid.Check(t, func(rt *rapid.T) {
 		c := genMyPacket(rt)
